@@ -676,6 +676,23 @@ func (w *c09World) bigBlockThenForgedCount(c *kernel.RunCtx) {
 		}
 		c.Count("probe.overclaim_before_megabytes_of_real_data", 1)
 	}
+	// a structural element repeated millions of times: the extended-format marker again and again (anything that
+	// recurses or keeps per-marker state per occurrence shows up as a dead process or in the meter)
+	{
+		rep := make([]byte, 0, 4+6*6000000)
+		rep = append(rep, 1, 0, 0, 0)
+		for i := 0; i < 6000000; i++ {
+			rep = append(rep, 0, 0, 0, 0, 0, 0xEF)
+		}
+		for _, ep := range []int{epTxReadFrom, epFromBytes, epTxsReadFrom} {
+			r := runBinary(c, ep, rep, kernel.Plan{}, -1, -1, false, true)
+			judge(c, r, "version followed by the extended-format marker repeated six million times", false, false, true)
+			if c.Failed() {
+				return
+			}
+		}
+		c.Count("probe.marker_repeated_millions_of_times", 1)
+	}
 	// proportionality holds for genuine data of any size: one 40 MiB data output, metered like everything else
 	{
 		huge := &models.RTx{Version: 1, Ins: []models.RIn{{Script: []byte{0x51}}}, Outs: []models.ROut{{Sats: 0, Script: make([]byte, (40<<20)+c.Choose(4096))}}}
